@@ -528,12 +528,36 @@ def r6_table_isolation(ck, cx, rule='R6'):
     sq = cx.idx.cls('pymodbus.datastore.store.ModbusSequentialDataBlock')
     init = cx.method(sq, '__init__')
     vals = init.params[2]
+    def may_alias(v, depth=0):
+        """can the expression evaluate to the very object the constructor was given?"""
+        if isinstance(v, ast.Name):
+            return v.id == vals
+        if isinstance(v, (ast.BoolOp,)):
+            return any(may_alias(x, depth) for x in v.values)
+        if isinstance(v, ast.IfExp):
+            return may_alias(v.body, depth) or may_alias(v.orelse, depth)
+        if isinstance(v, ast.Call) and isinstance(v.func, ast.Name) and depth < 2:
+            r = cx.idx.lookup(init.mod, v.func.id)
+            if r and r[0] == 'func':
+                # a helper of the package: it aliases when some return hands back the parameter that receives our list
+                h = r[1]
+                for i_, a_ in enumerate(v.args):
+                    if may_alias(a_, depth) and i_ < len(h.params):
+                        pn = h.params[i_]
+                        for rt in ast.walk(h.node):
+                            if isinstance(rt, ast.Return) and rt.value is not None and any(isinstance(x, ast.Name) and x.id == pn for x in [rt.value] +
+                                                                                         (list(rt.value.values) if isinstance(rt.value, ast.BoolOp) else []) +
+                                                                                         ([rt.value.body, rt.value.orelse] if isinstance(rt.value, ast.IfExp) else [])):
+                                return True
+        return False
     for p in cx.enum(init, sq, max_depth=0):
+        annotate(p, heap=False)
         for ev in p.ev:
             if ev.kind == 'assign' and U(ev.a) == 'self.values':
-                ck.ob(rule, init.qn, 'sequential block keeps its own list (copy or fresh list), not the caller\'s', U(ev.node.value) != vals,
+                v_ = getattr(ev, '_sub', None) or ev.node.value
+                ck.ob(rule, init.qn, 'sequential block keeps its own list (copy or fresh list), not the caller\'s', not may_alias(v_),
                       detail='values-aliased', loc=cx.floc(init, ev.node),
-                      message='ModbusSequentialDataBlock stores the list it was given: two blocks built from one list share their cells')
+                      message='ModbusSequentialDataBlock stores the list it was given (`%s`): two blocks built from one list share their cells' % U(v_)[:60])
     cr = cx.method(sq, 'create')
     rets = [r for r in ast.walk(cr.node) if isinstance(r, ast.Return)]
     ck.ob(rule, cr.qn, 'create() builds a new block from a new list on every call',
